@@ -167,8 +167,9 @@ def rules(ctx: Ctx) -> None:
 
     node_names = _holder_names([c for c, _, _ in node_comps])
     edge_names = _holder_names([c for c, _ in edge_comps])
-    ret_names = {x.id for x in ast.walk(rets[0].value) if isinstance(x, ast.Name)} if len(rets) == 1 else set()
-    ok_ret = len(rets) == 1 and bool(node_names & ret_names) and bool(edge_names & ret_names)
+    # the returned value is computed from the node lists and the edge list (whether or not they were given names first)
+    infl = {id(k) for k in prog.influences(ser, rets[0].value)} if len(rets) == 1 else set()
+    ok_ret = len(rets) == 1 and all(id(c) in infl for c, _, _ in node_comps) and all(id(c) in infl for c, _ in edge_comps)
     ctx.ob("R18.1", "returns-nodes-and-edges", ok_ret, loc(ser.mod, rets[0]) if rets else ser.loc(), "the export is nodes + edges")
     # nodes list is only extended (never filtered / de-duplicated by dropping)
     for n in prog.walk_fn(ser):
